@@ -44,27 +44,15 @@ def generate(repo):
     out.add('ctor', ctor)
 
     def parser():
-        f = find_func(fp, 'parseSeqFile', 'SequenceFileParser')
-        src = W(ast.unparse(f))
-        for frag in ['with open(filename) as filehandle:\n    content = filehandle.readlines()', 'header = False', "seq = ''",
-                     'for line in content:\n    line = line.strip()\n    if len(line) == 0:\n        continue',
-                     "if line[0] == '>':\n        if header:\n            raise SequenceFileParserException(",
-                     'header = True\n        continue', 'line = self.__validSeq(line)\n        seq = seq + line',
-                     'seq = self.__final_validation(seq)', 'return seq']:
-            need(frag in src, 'parseSeqFile: missing `%s`' % frag[:40])
+        # parseSeqFile / __validSeq / __final_validation are tied semantically (g_minipy -> Props/Tie/minipy_parser_tie.v,
+        # minipy_validseq_tie.v); only the digit string is read here
         v = find_func(fp, '__validSeq', 'SequenceFileParser')
-        vs = W(ast.unparse(v))
-        # the body of __validSeq is tied semantically (g_minipy -> Props/Tie/minipy_validseq_tie.v); only the digit string is read here
         digits = None
         for n in ast.walk(v):
             if isinstance(n, ast.Compare) and isinstance(n.ops[0], ast.In) and ast.unparse(n.left) == 'i' \
                     and isinstance(n.comparators[0], ast.Constant):
                 digits = n.comparators[0].value
         need(digits is not None, 'digit string')
-        fv = W(ast.unparse(find_func(fp, '__final_validation', 'SequenceFileParser')))
-        for frag in ["number_of_asterisk = seq.count('*')", 'if number_of_asterisk == 0:\n    return seq',
-                     'if number_of_asterisk > 1:\n    raise', "if seq[-1] == '*':\n    return seq[0:-1]", 'raise SequenceFileParserException(']:
-            need(frag in fv, '__final_validation: missing `%s`' % frag[:40])
         return ('Definition g_parser_shape_ok : bool := true.\nDefinition g_parser_digits : string := %s.' % coq_str(''.join(sorted(digits))))
     out.add('parser', parser)
 
